@@ -94,38 +94,13 @@ def buildTree (cls : Nat → Cls) (ok : Bool) (raw : List Ev) : Option Forest :=
 
 /-! ### the compile-time classification -/
 
-/-- `Rule::subs_t`. -/
-def Kind.subs : Kind → List Nat
-  | .atom _ => []
-  | .seq cs => cs
-  | .sor cs => cs
-  | .starPartial cs => cs
-  | .partialR cs => cs
-  | .plus c => [c]
-  | .atR c => [c]
-  | .notAt c => [c]
-  | .until1 c => [c]
-  | .until2 c b => [c, b]
-  | .rep _ c => [c]
-  | .repMinMax _ _ c _ => [c]
-  | .repOpt _ c => [c]
-  | .ifThenElse c t e => [c, t, e]
-  | .strict c r => [c, r]
-  | .starStrict c r => [c, r]
-  | .rematch h rs => h :: rs
-  | .must c => [c]
-  | .ifMust _ c mn => [c, mn]
-  | .raise _ => []
-  | .tryCatchReturnFalse _ c => [c]
-  | .tryCatchRaiseNested _ c => [c]
-  | .enable c => [c]
-  | .disable c => [c]
-  | .action _ c => [c]
-  | .state _ c => [c]
-
+/-- The rules a rule's `match()` can invoke: `Rule::subs_t`, plus — for `rep_min_max`, `strict`, `star_strict`, `if_must` — the
+    derived hidden rule (`not_at< R >`, `seq< Rs... >`, `must< Rs... >`) through which the remaining `subs_t` entries are
+    reached.  `is_leaf` computed over these lists is never less conservative than over `subs_t` (a derived rule costs one
+    level), and whether an unselected rule is classified `leaf` or `branch` is not observable in the tree. -/
 def subsOf (g : Grammar) (i : Nat) : List Nat :=
   match g[i]? with
-  | some nd => nd.kind.subs
+  | some nd => nd.kind.calls
   | none => []
 
 /-- `is_selected_node< Rule, Selector >`: only rules visible to the control can be selected. -/
